@@ -1,7 +1,7 @@
 (** C11: every admin endpoint requires a valid session or credentials once a
     user exists.  Only statements here; proofs live in Proofs/AuthHttp.v and
     Proofs/Routes.v (the latter over the generated table Gen/Routes.v). *)
-From AGH Require Import Base.Run Model.Session Model.AuthHttp Proofs.AuthHttp Proofs.AuthGlob Proofs.Routes Gen.Routes.
+From AGH Require Import Base.Run Model.Session Model.AuthHttp Proofs.AuthHttp Proofs.AuthCreds Proofs.AuthGlob Proofs.Routes Gen.Routes.
 Local Open Scope Z_scope.
 
 (** The chain httpRegister puts in front of a handler.  "Does not run [h]" is
@@ -147,3 +147,109 @@ Example C11_startup_premises_satisfiable :
   env_after (boot k {| b_users := true; b_db_opens := true |}) ex_env.
 Proof. exact startup_premises_satisfiable. Qed.
 Print Assumptions C11_startup_premises_satisfiable.
+
+(** ** Round 3: method, headers, findUser
+
+    A request carries its method and, besides Cookie / Authorization /
+    Content-Type / Content-Length, an arbitrary list of further headers
+    ([r_hdrs]: Origin, Access-Control-Request-Method, X-Requested-With,
+    Upgrade, ...).  [same_credentials r r']: same path, session cookie, basic
+    credentials, TLS flag and Host check; method and every other header may
+    differ.  [blind_before_auth ws]: only postInstall / preInstall / gzip /
+    limitRequestBody stand in front of the first optionalAuth of the chain.
+    Then the refusal of an unauthenticated request for a non-public path is
+    the SAME answer and the same world for [r] and [r']: registered or not
+    (OPTIONS, HEAD, PATCH, TRACE, CONNECT, any byte string), the method does
+    not matter, and no header other than Cookie / Authorization does. *)
+Theorem C11_refusal_method_header_independent :
+  forall (A R : Type) ws (e : env) (w : world A) (r r' : request),
+  blind_before_auth ws = true -> same_credentials r r' ->
+  e_auth_required e = true -> is_public (r_path r) = false -> authenticated e (w_sess w) r = false ->
+  exists (w' : world A) (a : answer R),
+    blocks (apply_chain ws) e w r w' a /\ blocks (apply_chain ws) e w r' w' a /\ session_effect e w r w'.
+Proof. exact (@refusal_method_header_independent). Qed.
+Print Assumptions C11_refusal_method_header_independent.
+
+(** The chain of httpRegister: moreover 403 or the redirect to the login page. *)
+Theorem C11_chain_refusal_method_header_independent :
+  forall (A R : Type) (m : bytes) (e : env) (w : world A) (r r' : request),
+  same_credentials r r' ->
+  e_auth_required e = true -> is_public (r_path r) = false -> authenticated e (w_sess w) r = false ->
+  exists (w' : world A) (a : answer R),
+    blocks (apply_chain (http_register_chain m)) e w r w' a /\
+    blocks (apply_chain (http_register_chain m)) e w r' w' a /\
+    session_effect e w r w' /\
+    (e_first_run e = false -> e_https e = false -> a = AStatus 403 \/ a = ARedirect 302 str_login_rel).
+Proof. exact (@chain_refusal_method_header_independent). Qed.
+Print Assumptions C11_chain_refusal_method_header_independent.
+
+(** Every route of the current source that is not a listed exception has only
+    method-blind wrappers in front of optionalAuth (re-checked each run). *)
+Theorem C11_routes_refusal_uniform :
+  forallb (route_blind Gen.Routes.reg_method) Gen.Routes.routes = true.
+Proof. exact all_routes_blind. Qed.
+Print Assumptions C11_routes_refusal_uniform.
+
+Example C11_independence_premises_satisfiable :
+  same_credentials (ex_req_mh str_GET []) (ex_req_mh str_OPTIONS [hdr_origin]) /\
+  blind_before_auth [WPostInstall; WOptionalAuth] = true /\
+  blind_before_auth [WPostInstall; WOptionalAuth; WGzip] = true /\
+  blind_before_auth [WPostInstall; WEnsure str_GET; WOptionalAuth] = false /\
+  Forall (fun r => snd (apply_chain [WPostInstall; WOptionalAuth] ex_handler ex_env ex_world r) = AStatus 403 /\
+                   snd (apply_chain (http_register_chain str_GET) ex_handler ex_env ex_world r) = AStatus 403)
+    [ex_req_mh str_GET []; ex_req_mh str_OPTIONS [hdr_origin]; ex_req_mh str_CONNECT [hdr_origin]].
+Proof. exact independence_premises_satisfiable. Qed.
+Print Assumptions C11_independence_premises_satisfiable.
+
+(** findUser is part of the model: [find_user bc us login pw] walks the
+    accounts in order and returns the first one whose name is [login] and for
+    whose stored hash the bcrypt oracle [bc] answers nil; the oracle may also
+    answer "mismatch" or "other error" (stored hash too short, unknown prefix
+    or version, cost out of range).  It finds an account exactly when one
+    with that name gets the answer nil. *)
+Theorem C11_find_user_iff : forall bc us l p,
+  (exists u, find_user bc us l p = Some u) <-> (exists h, In (l, h) us /\ bc h p = BcOk).
+Proof. exact find_user_iff. Qed.
+Print Assumptions C11_find_user_iff.
+
+(** Authenticated only through a session the table accepts now or, without a
+    session cookie, through basic credentials for which the oracle says ok. *)
+Theorem C11_authenticated_only_if : forall e s r,
+  authenticated e s r = true ->
+  (exists tok, r_cookie r = CTok tok /\ authenticates (e_ttl e) (e_now e) tok s = true) \/
+  (r_cookie r = CNone /\
+   exists l p h, r_basic r = BCred l p /\ In (l, h) (e_accounts e) /\ e_bcrypt e h p = BcOk).
+Proof. exact authenticated_only_if. Qed.
+Print Assumptions C11_authenticated_only_if.
+
+(** An account whose stored hash is unusable (or just different) opens
+    nothing, whatever the password. *)
+Theorem C11_unusable_hash_refused : forall (A R : Type) ws e (w : world A) r l p,
+  In WOptionalAuth ws -> e_auth_required e = true -> is_public (r_path r) = false ->
+  r_cookie r = CNone -> r_basic r = BCred l p ->
+  (forall h, In (l, h) (e_accounts e) -> e_bcrypt e h p <> BcOk) ->
+  exists w' (a : answer R), blocks (apply_chain ws) e w r w' a /\ w_sess w' = w_sess w.
+Proof. exact (@unusable_hash_refused). Qed.
+Print Assumptions C11_unusable_hash_refused.
+
+(** Accepting every oracle answer but "mismatch" lets any password through
+    for an account with a truncated hash; the code's findUser refuses. *)
+Example C11_find_user_slip_refuted :
+  forall p, find_user_with slip_accepts ex_bad_bcrypt ex_bad_accounts [97]%N p <> None /\
+            find_user ex_bad_bcrypt ex_bad_accounts [97]%N p = None.
+Proof. exact find_user_slip_refuted. Qed.
+Print Assumptions C11_find_user_slip_refuted.
+
+Example C11_unusable_hash_premises_satisfiable :
+  let e := {| e_first_run := false; e_auth_present := true; e_accounts := ex_bad_accounts; e_bcrypt := ex_bad_bcrypt;
+              e_https := false; e_force_https := false; e_now := 1000; e_ttl := 3600 |} in
+  let r := {| r_method := str_GET; r_path := ex_path; r_ctype := []; r_clen := 0; r_cookie := CNone;
+              r_basic := BCred [97]%N [120]%N; r_tls := false; r_host_ok := true; r_hdrs := [] |} in
+  e_auth_required e = true /\ is_public (r_path r) = false /\
+  (forall h, In ([97]%N, h) (e_accounts e) -> e_bcrypt e h [120]%N <> BcOk) /\
+  snd (apply_chain (http_register_chain str_GET) ex_handler e ex_world r) = AStatus 403 /\
+  snd (apply_chain (http_register_chain str_GET) ex_handler ex_env ex_world
+         {| r_method := str_GET; r_path := ex_path; r_ctype := []; r_clen := 0; r_cookie := CNone;
+            r_basic := BCred [97]%N [112]%N; r_tls := false; r_host_ok := true; r_hdrs := [] |}) = AHandler tt.
+Proof. exact unusable_hash_premises_satisfiable. Qed.
+Print Assumptions C11_unusable_hash_premises_satisfiable.
